@@ -25,6 +25,7 @@ def squeeze(structure, rng):
     from rnapolis.tertiary import Atom, Residue3D, Structure3D
     res = []
     prev = None
+    lastpos = {}
     for r in structure.residues:
         atoms = []
         for a in r.atoms:
@@ -32,10 +33,18 @@ def squeeze(structure, rng):
             u = rng.random()
             if prev is not None and u < 0.06:
                 x, y, z = prev.x + rng.uniform(-.6, .6), prev.y + rng.uniform(-.6, .6), prev.z + rng.uniform(-.6, .6)
+            elif u < 0.12 and a.name in lastpos:
+                # same-named atom of an earlier residue at a distance spread over the whole decision band [0, 2.6] A
+                d = rng.uniform(0.0, 2.6)
+                v = [rng.gauss(0, 1) for _ in range(3)]
+                nv = sum(t * t for t in v) ** .5 or 1.0
+                px, py, pz = lastpos[a.name]
+                x, y, z = px + d * v[0] / nv, py + d * v[1] / nv, pz + d * v[2] / nv
             if rng.random() < 0.3:
                 occ = rng.choice([0.5, 0.5, 0.3, 0.7, 1.0])
             na = Atom(a.entity_id, a.label, a.auth, a.model, a.name, x, y, z, occ)
             atoms.append(na)
+            lastpos[a.name] = (x, y, z)
             prev = na
         res.append(Residue3D(r.label, r.auth, r.model, r.one_letter_name, tuple(atoms)))
     return Structure3D(res)
